@@ -109,6 +109,7 @@ def run_case(rep, scn, case, sb, tag, n_orders, n_seeds, lrows=None):
     plan = R.gen_fault_plan(rng, scn, files, density=rng.choice([0, 1, 2, 3]))
     found = False
     path_fault = None
+    mixed_installed = False
     if case.get("mixed"):
         # one repository persistently fails, the others succeed: the exit status (and every repository's own
         # result) must not depend on which of them happens to finish last
@@ -118,6 +119,7 @@ def run_case(rep, scn, case, sb, tag, n_orders, n_seeds, lrows=None):
         if groups:
             g = sorted(groups)[case["seed"] % len(groups)]
             plan = {victim["url"]: {p: {"first": [], "rest": "error"} for p in groups[g]}}
+            mixed_installed = True
     if case.get("tenpair"):
         for r in scn.repos:
             pool = sorted(q for q in files[r["url"]] if q.startswith("pool/"))
@@ -189,6 +191,17 @@ def run_case(rep, scn, case, sb, tag, n_orders, n_seeds, lrows=None):
     rep.count(f"exit.{ref['exit']}")
     rep.count("runs", len(digests))
     jc = {"scenario": {"repos": scn.repos, "nthreads": scn.nthreads}, "case": case, "plan": plan}
+    if mixed_installed:
+        # by construction one repository cannot obtain a required index: every order must report that, none may
+        # exit 0 (an exit status that follows the repository that happens to finish last is the same for all orders
+        # when that repository always is the same one)
+        for lab, d in zip(labels, digests):
+            if d["exit"] == 0:
+                found = True
+                rep.violation(f"{lab}: a required index of one repository persistently fails but the run exits 0 "
+                              f"(results {d['results']})",
+                              {"kind": "oracle", "tie": "orders", "case": jc, "run": lab}, tags={"oracle": "mixed_exit"})
+                break
     for lab, d in zip(labels[1:], digests[1:]):
         for key in ("exit", "results", "tree", "requests"):
             if d[key] != ref[key]:
@@ -237,7 +250,7 @@ def run(rep: C.Report):
             scn, case = gen_case(trng, force_twin=True)
             found |= run_case(rep, scn, case, sb, f"t{i}", 8, 0, lrows)
         # several repositories of which exactly one fails, under many completion orders
-        for i in range(5 if rep.tier == "quick" else 120):
+        for i in range(8 if rep.tier == "quick" else 120):
             scn = P.gen_scenario(trng, nrepos=trng.choice([2, 3, 3]))
             scn.nthreads = trng.choice([2, 4, 8])
             case = {"seed": trng.getrandbits(32), "twin": False, "shared": False, "mixed": 1 + trng.randrange(3)}
